@@ -19,6 +19,7 @@ import (
 	"os"
 	"os/exec"
 	"path/filepath"
+	"regexp"
 	"sort"
 	"strings"
 	"sync"
@@ -388,8 +389,13 @@ func buildRequest(f fileSpec, idx int) *pluginpb.CodeGeneratorRequest {
 	tagField := func() *descriptorpb.FieldDescriptorProto {
 		return &descriptorpb.FieldDescriptorProto{Name: proto.String("tag"), Number: proto.Int32(1), Type: &str, Label: &opt, JsonName: proto.String("tag")}
 	}
+	// every local message also carries a sub-message (a field whose encoding has a length prefix)
+	msgT := descriptorpb.FieldDescriptorProto_TYPE_MESSAGE
+	fd.MessageType = append(fd.MessageType, &descriptorpb.DescriptorProto{Name: proto.String("VerifSubNote"), Field: []*descriptorpb.FieldDescriptorProto{
+		{Name: proto.String("note"), Number: proto.Int32(1), Type: &str, Label: &opt, JsonName: proto.String("note")}}})
 	for i, m := range f.Msgs {
-		md := &descriptorpb.DescriptorProto{Name: proto.String(m), Field: []*descriptorpb.FieldDescriptorProto{tagField()}}
+		md := &descriptorpb.DescriptorProto{Name: proto.String(m), Field: []*descriptorpb.FieldDescriptorProto{tagField(),
+			{Name: proto.String("sub"), Number: proto.Int32(2), Type: &msgT, TypeName: proto.String("." + f.Pkg + ".VerifSubNote"), Label: &opt, JsonName: proto.String("sub")}}}
 		if i == 0 && f.Nested {
 			md.NestedType = []*descriptorpb.DescriptorProto{{Name: proto.String("Inner"), Field: []*descriptorpb.FieldDescriptorProto{tagField()}}}
 		}
@@ -635,8 +641,19 @@ func genDriver(pkgDir string) (string, []string, error) {
 		b.WriteString("\twrapperspb \"google.golang.org/protobuf/types/known/wrapperspb\"\n")
 	}
 	b.WriteString(")\n\nvar _ = io.EOF\nvar _ = context.Background\n\n")
+	pbSrc, _ := os.ReadFile(filepath.Join(pkgDir, "svc.pb.go"))
+	hasSub := func(name string) bool {
+		m := regexp.MustCompile(`(?s)type ` + regexp.QuoteMeta(name) + ` struct \{.*?\n\}`).Find(pbSrc)
+		return m != nil && bytes.Contains(m, []byte("*VerifSubNote"))
+	}
 	mk := func(t, tag string) string { // t like "*Req"
-		return "&" + strings.TrimPrefix(t, "*") + "{" + fieldFor(t) + ": " + tag + "}"
+		name := strings.TrimPrefix(t, "*")
+		if !strings.Contains(name, ".") && hasSub(name) {
+			// the note differs from the tag: if the sub-message's bytes were ever read as fields of the
+			// outer message, the tag the receiver sees would be the note
+			return "&" + name + "{" + fieldFor(t) + ": " + tag + ", Sub: &VerifSubNote{Note: \"note-of:\" + " + tag + "}}"
+		}
+		return "&" + name + "{" + fieldFor(t) + ": " + tag + "}"
 	}
 	var calls []string
 	for _, svc := range services {
